@@ -102,9 +102,11 @@ Definition has_conflict (s : sys) (x : txn) : bool :=
 Definition stamp (ts : N) (e : entry) : entry := if e_ver e =? 0 then with_ver e ts else e.
 
 (* commitAndSend + writeToLSM in one atomic step (sequential histories): entries are emitted
-   pendingWrites first, then duplicateWrites, each Put into the memtable in that order *)
+   duplicateWrites first (earlier writes of re-written keys, in call order), then
+   pendingWrites (the latest write of every key), each Put into the memtable in that order
+   (order after the repair of finding F3) *)
 Definition commit_entries (x : txn) (ts : N) : list entry :=
-  map (fun ke => stamp ts (snd ke)) (x_pend x) ++ map (stamp ts) (x_dups x).
+  map (stamp ts) (x_dups x) ++ map (fun ke => stamp ts (snd ke)) (x_pend x).
 
 Definition apply_entries (d : lsm) (es : list entry) : lsm :=
   mkLsm (fold_left mt_put es (l_mt d)) (l_imm d) (l_levels d).
